@@ -229,6 +229,7 @@ func runC11(c *sim.Ctx) *sim.Violation {
 	c11Tape = t
 	c11Sites = map[int]int{}
 	p, a, how := c11Packet(c)
+	rec := c11Recipe
 	if p == nil {
 		return nil
 	}
@@ -244,9 +245,18 @@ func runC11(c *sim.Ctx) *sim.Violation {
 		deep0 := drv.DeepHash(p)
 		k0 := t.Int(6)
 		var name string
-		if pi := sim.Guard(func() { name = readOnlyOp(c, p, k0) }); pi == nil && drv.DeepHash(p) != deep0 {
-			return sim.V("C11/"+typ+"/first-"+name+"-changed-hidden-state",
-				"the first %s on a freshly %s %s packet changed memory reachable from it (deep snapshot differs)\n%s", name, how, typ, a.Canon())
+		canon0 := drv.Observe(p).Canon()
+		if pi := sim.Guard(func() { name = readOnlyOp(c, p, k0) }); pi == nil {
+			if f, wv, gv := ref.FirstDiff(canon0, drv.Observe(p).Canon()); f != "" {
+				return sim.V("C11/"+typ+"/first-"+name+"-changed-accessor/"+f,
+					"the first %s on a freshly %s %s packet changed accessor %s from %q to %q", name, how, typ, f, wv, gv)
+			}
+			if drv.DeepHash(p) != deep0 {
+				// memory changed that no accessor shows: C11 speaks about accessors and
+				// bytes (both are compared throughout the run); whether such a write is
+				// safe under concurrency is C13's question
+				c.Count("note.first-read-only-call-wrote-hidden-state(not-a-C11-matter)")
+			}
 		}
 		c.Count("probe.snapshot-before-the-first-read-only-call")
 	}
@@ -283,14 +293,14 @@ func runC11(c *sim.Ctx) *sim.Violation {
 			}
 			return nil
 		}
-		if how == "zero-literal" {
-			if q, _, err := buildGuardZero(a, nil); err == nil {
-				return q
-			}
+		// the same calls in the same order on a fresh packet (an implementation may
+		// legitimately let the encoding depend on the order of setter calls)
+		if rec == nil {
 			return nil
 		}
-		q, _, err := buildGuard(a, nil)
-		if err != nil {
+		var q mq.Packet
+		var err error
+		if pi := sim.Guard(func() { q, err = rec.Again() }); pi != nil || err != nil {
 			return nil
 		}
 		return q
@@ -361,7 +371,7 @@ func runC11(c *sim.Ctx) *sim.Violation {
 			return sim.V(fmt.Sprintf("C11/%s/op-WriteTo-changed-accessor/%s", typ, f), "the attached will was changed through its own setters; the next WriteTo then changed accessor %s from %q to %q\n%s", f, wv, gv, desc())
 		}
 		if drv.DeepHash(p) != db {
-			return sim.V(fmt.Sprintf("C11/%s/op-WriteTo-wrote-hidden-state", typ), "the attached will was changed through its own setters; the next WriteTo then wrote memory reachable from the packet\n%s", desc())
+			c.Count("note.read-only-op-wrote-hidden-state(not-a-C11-matter)")
 		}
 	}
 	canon0 := drv.Observe(p).Canon()
@@ -385,7 +395,10 @@ func runC11(c *sim.Ctx) *sim.Violation {
 			return sim.V(fmt.Sprintf("C11/%s/op-%s-changed-accessor/%s", typ, op, f), "after read-only history [%s] accessor %s changed from %q to %q\n%s", hist, f, wv, gv, desc())
 		}
 		if drv.DeepHash(p) != deep0 {
-			return sim.V(fmt.Sprintf("C11/%s/op-%s-wrote-hidden-state", typ, op), "after read-only history [%s] memory reachable from the packet changed (deep snapshot differs) although no accessor shows it\n%s", hist, desc())
+			// no accessor shows it and (checked below) the bytes stay the same: not C11's
+			// matter; whether such a write is safe under concurrency is C13's question
+			c.Count("note.read-only-op-wrote-hidden-state(not-a-C11-matter)")
+			deep0 = drv.DeepHash(p)
 		}
 		b, _, _ := c11Encode(p, 1, 0)
 		if !bytes.Equal(b, B0) {
